@@ -44,8 +44,8 @@ FLOORS = {
               "ordered_exact_cases": 19000, "ordered_exact_binds": 4500, "ordered_exact_raise": 12000,
               "ordered_kw_after_dstar": 3500, "ordered_star_not_last_positional": 7000, "ordered_star_cases": 4500},
     "thorough": {"distinct_nontrivial": 100000, "calls_compared": 1000000, "star_cases": 10000,
-                 "ordered_exact_cases": 19000, "ordered_exact_binds": 4500, "ordered_exact_raise": 12000,
-                 "ordered_kw_after_dstar": 3500, "ordered_star_not_last_positional": 7000, "ordered_star_cases": 4500},
+                 "ordered_exact_cases": 70000, "ordered_exact_binds": 22000, "ordered_exact_raise": 50000,
+                 "ordered_kw_after_dstar": 14000, "ordered_star_not_last_positional": 28000, "ordered_star_cases": 29000},
 }
 EXHAUSTIVE = {"quick": False, "thorough": False}
 BIND_CODES = {"incompatible_call", "incompatible_argument"}
